@@ -805,10 +805,11 @@ package graphql
 //@   assigns nothing
 //@ func Plan.planSelectionSet
 //@   trusted
-//@   assigns class:graphql.selectionPlan, class:graphql.fieldPlan, class:graphql.Plan.expanding
+//@   assigns class:graphql.selectionPlan, class:graphql.fieldPlan, class:graphql.fragmentGate, class:graphql.fragmentTrace, class:E|graphql.collectStep, class:F|[]graphql.collectStep, class:M|string|*graphql.fragmentTrace, class:E|graphql.fragmentSpreadEdge, class:M|string|*graphql.fragmentGate, class:M|string|int, class:M|string|bool, class:E|*graphql.fieldPlan, class:E|*ast.Field, class:E|func, class:graphql.Plan.expanding, class:M|*ast.Field|bool, class:M|*graphql.fieldPlan|bool, class:M|*graphql.fragmentTrace|bool
 //@ func PlanQuery
 //@   props C13 C01
 //@   nosafety
+//@   assigns class:graphql.selectionPlan, class:graphql.fieldPlan, class:graphql.fragmentGate, class:graphql.fragmentTrace, class:E|graphql.collectStep, class:F|[]graphql.collectStep, class:M|string|*graphql.fragmentTrace, class:E|graphql.fragmentSpreadEdge, class:M|string|*graphql.fragmentGate, class:M|string|int, class:M|string|bool, class:E|*graphql.fieldPlan, class:E|*ast.Field, class:E|func, class:graphql.Plan.expanding, class:M|*ast.Field|bool, class:M|*graphql.fieldPlan|bool, class:M|*graphql.fragmentTrace|bool, class:M|string|ast.Definition
 //@   opt invoke.GetKind=pure
 //@   ensures result1 == nil ==> result0 != nil && result0.schema == schema && result0.operation != nil
 //@   ensures result1 == nil ==> (result0.isMutation <==> result0.operation.Operation == ast.OperationTypeMutation)
